@@ -16,18 +16,40 @@ tuples of attribute targets mixing namespace objects with context containers
 (all orders, same / different attribute names, aliases and loop variables) and
 namespaces built from context data (namespace(d), namespace(pairs),
 namespace(**d), ...) that are assigned to afterwards.
+Two further generated groups.  *Methods taken from the type*: the same
+methods are reachable unbound through a type object (dict.update(d, x=1)); type
+objects reach a template as the `dict` global of every environment, as render
+data (the exact types, subclasses, the ABCs named by the sandbox documentation,
+defaultdict / Counter / OrderedDict, UserList / UserDict applied to a namespace
+whose `data` is the container), inside a context dict and inside env.globals.
+Every name of the type object that is a method of the container type or of its
+ABC is called with the container as first argument plus the argument pool,
+along 13 template paths; ground truth again by executing it on a copy.
+*Attribute targets in every binding syntax*: `x.attr` written wherever the
+grammar has an assignment target or binds a name (set, block set with and
+without filters, empty / nested / tuple block set, tuple set, parenthesised and
+nested tuples, subscript and dotted targets, for / with targets, macro and
+call-block arguments, import aliases, trans variables) x every way of referring
+to a context container (name, set / with alias, alias of a nested value, loop
+variable, macro and call-block parameter) x 10 positions of the statement (top
+level, if, for, macro, block, call block, with, filter block, set block,
+autoescape block).  Forms the parser rejects are dropped as syntax errors;
+whether a form executes is decided by rendering it with a namespace object.
 After each render every context value is compared with the deep copy taken
 before it; the comparison is type-exact at every level (1 != '1' != True).
 """
 from __future__ import annotations
 
 import collections
+import collections.abc
 import copy
 import inspect
 
 PID = "C19"
 LEVEL = "exploration"
-TECHNIQUE = "before/after deep comparison of context containers + execution-derived mutator ground truth, enumerated method x argument x path table and filter x argument table"
+TECHNIQUE = ("before/after deep comparison of context containers + execution-derived mutator ground truth, "
+             "enumerated method x argument x path table (on instances and through type objects), filter x "
+             "argument table, and attribute targets in every name-binding statement form")
 RULE = ("method cases: (container type, target expression, name from dir(type), argument tuple "
         "from a fixed pool, template path, sync/async), enumerated completely; filter cases: "
         "(filter from env.filters, container input, positional container argument or keyword "
@@ -39,7 +61,22 @@ RULE = ("method cases: (container type, target expression, name from dir(type), 
         "context dict, loop variables over dicts and lists} x attribute-name patterns (all same, "
         "partly same, different, existing keys), and 11 ways to build a namespace from context "
         "data x 8 follow-up attribute assignments (plain, tuple, block set, inside macro, inside "
-        "loop) (quick: a seed-rotated "
+        "loop); type-object method cases: (type object source [dict global, exact types / subclasses / "
+        "ABCs / defaultdict, Counter, OrderedDict / UserList, UserDict as render data, types inside a "
+        "context dict, types inside env.globals] x container type x every name in dir(type object) "
+        "that is also a name of the container type or its ABC x target expression x argument tuple x "
+        "13 template paths [direct, subscript, |attr, set/with alias of the method, alias of the type, "
+        "map(attribute=), loop variable, macro parameter, do, call block, filter argument, namespace-"
+        "held type] x sync/async x autoescape), enumerated completely in thorough for argument tuples "
+        "that modify a copy (quick: one or two rotating paths and one sync/autoescape combination per "
+        "row, a twelfth of the non-modifying tuples); attribute-target cases: (28 statement forms that "
+        "bind a name, written with an attribute target x 18 references [2 namespaces as controls, "
+        "context dict/list/set/deque/object by name, set/with aliases, aliases of nested values and of "
+        "filter results, loop variables, macro and call-block parameters] x 10 positions of the statement "
+        "x attribute names new/existing) for every form the parser accepts, the rejected forms once per "
+        "reference (quick: top level plus a rotating third of the other positions, one attribute name "
+        "and one sync/autoescape combination per row); (method, filter and earlier set-statement cases "
+        "in quick: a seed-rotated "
         "quarter of the non-mutating argument tuples and one direct consumption form per row, "
         "via-map on inputs whose elements are containers; method cases alternate autoescape by "
         "row, direct filter cases run sync under both autoescape settings and async under one "
@@ -57,6 +94,9 @@ ASSUMPTIONS = [
     "equality is element-wise == with exact type at every level (so 1, '1', 1.0 and True are all different; deque maxlen included) between the rendered-with data and a second, identical build of the data; once per shard that build is checked to equal copy.deepcopy of the first (plus attribute dicts of plain holder objects)",
     "a (method, arguments) pair counts as an attempted modification iff executing it on a deep copy changes the copy",
     "set statements with attribute targets: only the before/after comparison of the context data is judged (the documentation promises an exception for non-namespace targets; which one is not checked here); a namespace built from context data is a new object, so assigning its attributes must leave that data as it was",
+    "type objects: a call counts as an attempted modification iff executing getattr(type object, name)(container, arguments) on a deep copy changes the copy; only names that are methods of the container's builtin type or of its ABC are generated - methods a class adds on its own (Counter.subtract, OrderedDict.move_to_end) are application-provided functions like any helper the application passes in, not methods of list/dict/set/deque; Y['name'] and map(attribute='name') on a type object may subscript the type instead of reaching the method, there only the data comparison is judged",
+    "attribute targets: only the before/after comparison of the context data is judged, never which exception is raised; a statement form counts as exercised when it compiles (the namespace controls show how many forms run to completion)",
+    "environments of this check load the do and i18n extensions, a DictLoader with one macro library and a globals entry holding the four container types",
     "autoescape is an environment option (autoescape=True/False); per-template autoescape blocks are not generated",
 ]
 NSHARDS = {"quick": 16, "thorough": 16}
@@ -69,7 +109,19 @@ FLOORS = {
                            "method_names": 150, "filters_covered": 40,
                            "defined_checks": 300, "autoescape_renders": 4500,
                            "filter_cases_autoescape": 3500, "via_map_cases": 900,
-                           "assign_cases:tuple": 320, "assign_cases:nsinit": 66}},
+                           "assign_cases:tuple": 320, "assign_cases:nsinit": 66,
+                           "type_method_cases": 1000, "type_mutating_attempts": 600,
+                           "type_security_errors": 500,
+                           "type_method_cases:builtin-global": 25,
+                           "type_method_cases:context-exact-type": 200,
+                           "type_method_cases:context-subclass": 190,
+                           "type_method_cases:context-abc": 120,
+                           "type_method_cases:context-stdlib-subclass": 70,
+                           "type_method_cases:context-user-wrapper": 70,
+                           "type_method_cases:context-dict-of-types": 180,
+                           "type_method_cases:env-global": 190,
+                           "target_cases:container": 200, "target_block_set_cases": 160,
+                           "target_namespace_controls_ok": 26, "target_forms_executing": 4}},
     "thorough": {"evaluations": 60000, "distinct": 60000,
                  "counters": {"method_cases": 30000, "mutating_attempts": 8000,
                               "security_errors": 6000, "filter_cases": 30000,
@@ -85,6 +137,34 @@ TYPES = {"list": list, "dict": dict, "set": set, "deque": collections.deque}
 
 class Holder:
     pass
+
+
+class SubList(list):
+    pass
+
+
+class SubDict(dict):
+    pass
+
+
+class SubSet(set):
+    pass
+
+
+class SubDeque(collections.deque):
+    pass
+
+
+#: type objects handed to the template as data (name in the context -> object)
+TYPE_DATA = {
+    "List": list, "Dict": dict, "Set": set, "Deque": collections.deque,
+    "SubList": SubList, "SubDict": SubDict, "SubSet": SubSet, "SubDeque": SubDeque,
+    "MutSeq": collections.abc.MutableSequence, "MutMap": collections.abc.MutableMapping,
+    "MutSet": collections.abc.MutableSet,
+    "DefaultDict": collections.defaultdict, "Counter": collections.Counter,
+    "OrderedDict": collections.OrderedDict,
+    "UserList": collections.UserList, "UserDict": collections.UserDict,
+}
 
 
 def make_data():
@@ -110,6 +190,9 @@ def make_data():
         # with their string forms leaves the rendered output unchanged)
         "mx": [1, 2.5, None, [1, 2], {"a": 1}, True, (3, [4])],
         "rows": [[1, 2.5], [None, [3]], collections.deque([4, 5])],
+        # type objects as data (their methods take the container as first argument)
+        **TYPE_DATA,
+        "tys": {"list": list, "dict": dict, "set": set, "deque": collections.deque},
     }
 
 
@@ -192,8 +275,15 @@ def get_env(is_async, autoescape=False):
 
     env = _envs.get((is_async, autoescape))
     if env is None:
-        env = ImmutableSandboxedEnvironment(enable_async=is_async, extensions=["jinja2.ext.do"],
-                                            cache_size=0, autoescape=autoescape)
+        from jinja2 import DictLoader
+
+        env = ImmutableSandboxedEnvironment(enable_async=is_async,
+                                            extensions=["jinja2.ext.do", "jinja2.ext.i18n"],
+                                            cache_size=0, autoescape=autoescape,
+                                            loader=DictLoader({"alib": "{% macro am() %}x{% endmacro %}"}))
+        # type objects an application registered as globals
+        env.globals["gtypes"] = {"list": list, "dict": dict, "set": set,
+                                 "deque": collections.deque}
         _envs[(is_async, autoescape)] = env
     return env
 
@@ -325,6 +415,202 @@ def defined_case(ctx, case, count=True):
                       f"{source!r} (async={is_async}) rendered {outcome}:{msg!r}: the mutating "
                       f"method {tname}.{mname} is handed to the template as a defined value "
                       f"(expected an undefined value)", full)
+
+
+# ----------------------------------------------- methods taken from the TYPE
+# The same methods are reachable unbound through the type object:
+# dict.update(d, x=1).  Type objects reach a template as the `dict` global of
+# every environment, as render data (exact types, subclasses, the ABCs whose
+# mixin methods call the container's own mutators, stdlib subclasses, the
+# User* wrappers operating on `.data`), inside containers and as env.globals.
+# (expression, python object, kind, container types it applies to, receiver form)
+TYPE_SOURCES = [
+    ("dict", dict, "builtin-global", ("dict",), "plain"),
+    ("List", list, "context-exact-type", ("list",), "plain"),
+    ("Dict", dict, "context-exact-type", ("dict",), "plain"),
+    ("Set", set, "context-exact-type", ("set",), "plain"),
+    ("Deque", collections.deque, "context-exact-type", ("deque",), "plain"),
+    ("SubList", SubList, "context-subclass", ("list",), "plain"),
+    ("SubDict", SubDict, "context-subclass", ("dict",), "plain"),
+    ("SubSet", SubSet, "context-subclass", ("set",), "plain"),
+    ("SubDeque", SubDeque, "context-subclass", ("deque",), "plain"),
+    ("MutSeq", collections.abc.MutableSequence, "context-abc", ("list", "deque"), "plain"),
+    ("MutMap", collections.abc.MutableMapping, "context-abc", ("dict",), "plain"),
+    ("MutSet", collections.abc.MutableSet, "context-abc", ("set",), "plain"),
+    ("DefaultDict", collections.defaultdict, "context-stdlib-subclass", ("dict",), "plain"),
+    ("Counter", collections.Counter, "context-stdlib-subclass", ("dict",), "plain"),
+    ("OrderedDict", collections.OrderedDict, "context-stdlib-subclass", ("dict",), "plain"),
+    ("UserList", collections.UserList, "context-user-wrapper", ("list",), "data-attribute"),
+    ("UserDict", collections.UserDict, "context-user-wrapper", ("dict",), "data-attribute"),
+    ("tys.list", list, "context-dict-of-types", ("list",), "plain"),
+    ("tys['dict']", dict, "context-dict-of-types", ("dict",), "plain"),
+    ("tys.set", set, "context-dict-of-types", ("set",), "plain"),
+    ("tys['deque']", collections.deque, "context-dict-of-types", ("deque",), "plain"),
+    ("gtypes.list", list, "env-global", ("list",), "plain"),
+    ("gtypes.dict", dict, "env-global", ("dict",), "plain"),
+    ("gtypes['set']", set, "env-global", ("set",), "plain"),
+    ("gtypes.deque", collections.deque, "env-global", ("deque",), "plain"),
+]
+# @Y@ = type expression, @M@ = method name, @C@ = receiver and arguments
+TYPE_PATHS = {
+    "direct": "{{ @Y@.@M@(@C@) }}",
+    "subscript": "{{ @Y@['@M@'](@C@) }}",
+    "attr_filter": "{{ (@Y@|attr('@M@'))(@C@) }}",
+    "set_alias": "{% set m = @Y@.@M@ %}{{ m(@C@) }}",
+    "type_alias": "{% set ty = @Y@ %}{{ ty.@M@(@C@) }}",
+    "with_alias": "{% with m = @Y@.@M@ %}{{ m(@C@) }}{% endwith %}",
+    "map_attribute": "{{ ([@Y@]|map(attribute='@M@')|first)(@C@) }}",
+    "loop_var": "{% for c in [@Y@] %}{{ c.@M@(@C@) }}{% endfor %}",
+    "macro_param": "{% macro mm(c) %}{{ c.@M@(@C@) }}{% endmacro %}{{ mm(@Y@) }}",
+    "do_stmt": "{% do @Y@.@M@(@C@) %}",
+    "call_block": "{% call @Y@.@M@(@C@) %}{% endcall %}",
+    "filter_arg": "{{ 1|default(@Y@.@M@(@C@)) }}",
+    "namespace_held": "{% set tn = namespace(t=@Y@) %}{{ tn.t.@M@(@C@) }}",
+}
+#: the ABC the sandbox documentation names next to each builtin container type
+TYPE_ABCS = {"list": collections.abc.MutableSequence, "deque": collections.abc.MutableSequence,
+             "dict": collections.abc.MutableMapping, "set": collections.abc.MutableSet}
+
+
+def type_method_names(tyobj, tname):
+    """Names of the type object that are methods of the builtin container type
+    or of its ABC (possibly overridden by the type object).  Methods a class
+    adds on its own (Counter.subtract, OrderedDict.move_to_end, ...) are
+    application-provided functions, not methods of list/dict/set/deque."""
+    scope = set(dir(TYPES[tname])) | set(dir(TYPE_ABCS[tname]))
+    names = sorted(dir(tyobj))
+    return [n for n in names if n in scope], [n for n in names if n not in scope]
+
+
+#: Y['M'] and map(attribute='M') look up an item before an attribute, and a
+#: type object can be subscripted (list['sort'] is a generic alias of list): the
+#: template may never reach the method, so only the data comparison is judged
+TYPE_PATHS_LOOKUP_AMBIGUOUS = {"subscript", "map_attribute"}
+
+
+def type_receiver(form, obj):
+    if form == "data-attribute":
+        from jinja2.utils import Namespace
+
+        return Namespace(data=obj)
+    return obj
+
+
+def dry_run_type(si, tname, ti, mname, ai):
+    """Executes getattr(type object, name)(container, *args) on a fresh copy."""
+    _, tyobj, _, _, rform = TYPE_SOURCES[si]
+    try:
+        meth = getattr(tyobj, mname)
+    except AttributeError:
+        return False
+    if not callable(meth):
+        return False
+    D = make_data()
+    snap = copy.deepcopy(D)
+    obj = TARGETS[tname][ti][1](D)
+    args, kwargs = ARGPOOL[ai][1](D)
+    try:
+        meth(type_receiver(rform, obj), *args, **kwargs)
+    except Exception:
+        pass
+    return bool(changed_vars(D, snap))
+
+
+_tmut_cache = {}
+
+
+def type_mutates(si, tname, ti, mname, ai):
+    # sources sharing the python object and receiver form share the verdict
+    k = (id(TYPE_SOURCES[si][1]), TYPE_SOURCES[si][4], tname, ti, mname, ai)
+    if k not in _tmut_cache:
+        _tmut_cache[k] = dry_run_type(si, tname, ti, mname, ai)
+    return _tmut_cache[k]
+
+
+def type_case(ctx, case, count=True):
+    si, tname, ti, mname, ai, path, is_async = (case["tsource"], case["type"], case["target"],
+                                                case["method"], case["args"], case["path"],
+                                                case["async"])
+    yexpr, _, ykind, _, rform = TYPE_SOURCES[si]
+    texpr = TARGETS[tname][ti][0]
+    recv = f"namespace(data={texpr})" if rform == "data-attribute" else texpr
+    atext = ARGPOOL[ai][0]
+    autoescape = bool(case.get("autoescape", False))
+    source = (TYPE_PATHS[path].replace("@Y@", yexpr).replace("@M@", mname)
+              .replace("@C@", recv + (", " + atext if atext else "")))
+    data, snap, outcome, msg = render(source, is_async, autoescape)
+    if outcome == "syntax":
+        if count:
+            ctx.count("syntax_rejected")
+        return
+    would = type_mutates(si, tname, ti, mname, ai)
+    if count:
+        ctx.ev()
+        ctx.count("type_method_cases")
+        ctx.count("type_method_cases:" + ykind)
+        ctx.count("comparisons")
+        ctx.count("type_outcome:" + outcome)
+        if is_async:
+            ctx.count("async_renders")
+        if autoescape:
+            ctx.count("autoescape_renders")
+        if would:
+            ctx.count("type_mutating_attempts")
+            ctx.count("type_mutating_attempts:" + tname)
+        ctx.dist(["t", si, tname, ti, mname, ai, path, is_async, autoescape])
+    full = dict(case, template=source)
+    ch = changed_vars(data, snap)
+    key = f"type-object-method:{ykind}:{tname}"
+    if ch:
+        ctx.violation(key, f"{source!r} (async={is_async}, autoescape={autoescape}): the method "
+                           f"{mname} taken from the type object {yexpr} ({ykind}) modified context "
+                           f"value(s) {ch}: before {[snap[k] for k in ch if k in snap]!r} after "
+                           f"{[data.get(k) for k in ch]!r}; render outcome {outcome}: {msg[:120]!r}",
+                      full)
+        return
+    if would and path not in TYPE_PATHS_LOOKUP_AMBIGUOUS:
+        if outcome == "security":
+            if count:
+                ctx.count("type_security_errors")
+        else:
+            ctx.violation(key, f"{source!r} (async={is_async}, autoescape={autoescape}): "
+                               f"{yexpr}.{mname} ({ykind}) modifies a copy of the container when "
+                               f"executed directly, the data is unchanged, but the render ended "
+                               f"with {outcome}: {msg[:200]!r} instead of SecurityError", full)
+
+
+def type_is_mutator(si, tname, mname):
+    return any(type_mutates(si, tname, 0, mname, ai) for ai in range(len(ARGPOOL)))
+
+
+def type_defined_case(ctx, case, count=True):
+    """A mutator (by execution ground truth) looked up on a type object must be
+    an undefined value as well."""
+    si, mname, is_async = case["tsource"], case["method"], case["async"]
+    yexpr, _, ykind, _, _ = TYPE_SOURCES[si]
+    src = {"dot": "{{ @Y@.@M@ is defined }}", "attr": "{{ @Y@|attr('@M@') is defined }}",
+           "alias": "{% set ty = @Y@ %}{{ ty.@M@ is defined }}"}[case["form"]]
+    source = src.replace("@Y@", yexpr).replace("@M@", mname)
+    autoescape = bool(case.get("autoescape", False))
+    data, snap, outcome, msg = render(source, is_async, autoescape)
+    if count:
+        ctx.ev()
+        ctx.count("type_defined_checks")
+        ctx.count("comparisons")
+        if is_async:
+            ctx.count("async_renders")
+        if autoescape:
+            ctx.count("autoescape_renders")
+        ctx.dist(["tdef", si, case["type"], mname, case["form"], is_async, autoescape])
+    full = dict(case, template=source)
+    key = f"type-object-method:{ykind}:{case['type']}"
+    if changed_vars(data, snap):
+        ctx.violation(key, f"{source!r} modified data", full)
+    elif not (outcome == "security" or (outcome == "ok" and msg == "False")):
+        ctx.violation(key, f"{source!r} (async={is_async}) rendered {outcome}:{msg!r}: the method "
+                           f"{mname}, which modifies a {case['type']} passed as its first argument, "
+                           f"is handed to the template as a defined value when looked up on the type "
+                           f"object {yexpr} ({ykind}) (expected an undefined value)", full)
 
 
 # --------------------------------------------------------------- filters
@@ -558,6 +844,126 @@ def assignment_statements():
     return out
 
 
+# ---------------------------------------- every syntax that carries a target
+# An attribute target (x.attr) written wherever the grammar has an assignment
+# target or a name being bound.  Forms the parser refuses end in a syntax error
+# and are not counted; the others are crossed with every way of referring to a
+# context container and with the statement's position in the template.
+# @X@ = reference, @K@ = attribute name.
+TARGET_FORMS = {
+    "set": "{% set @X@.@K@ = 1 %}",
+    "block-set": "{% set @X@.@K@ %}v{% endset %}",
+    "block-set-filter": "{% set @X@.@K@ | upper %}v{% endset %}",
+    "block-set-filter-chain": "{% set @X@.@K@ | replace('v', 'w') | trim %} v {% endset %}",
+    "block-set-empty": "{% set @X@.@K@ %}{% endset %}",
+    "block-set-expr-body": "{% set @X@.@K@ %}{{ alist|length }}{% for i in l %}{{ i }}{% endfor %}{% endset %}",
+    "block-set-tuple-first": "{% set @X@.@K@, y %}vw{% endset %}",
+    "block-set-tuple-last": "{% set y, @X@.@K@ %}vw{% endset %}",
+    "block-set-nested": "{% set outer %}a{% set @X@.@K@ %}v{% endset %}b{% endset %}",
+    "block-set-then-read": "{% set @X@.@K@ %}v{% endset %}{{ @X@.@K@ }}",
+    "set-tuple-first": "{% set @X@.@K@, y = 1, 2 %}",
+    "set-tuple-last": "{% set y, @X@.@K@ = 1, 2 %}",
+    "set-tuple-unpack": "{% set y, @X@.@K@ = pairs[0] %}",
+    "set-paren-tuple": "{% set (@X@.@K@, y) = 1, 2 %}",
+    "set-nested-tuple": "{% set (y, (@X@.@K@, z)) = (1, (2, 3)) %}",
+    "set-subscript": "{% set @X@['@K@'] = 1 %}",
+    "block-set-subscript": "{% set @X@['@K@'] %}v{% endset %}",
+    "set-deep-attribute": "{% set @X@.c.@K@ = 1 %}",
+    "block-set-deep-attribute": "{% set @X@.c.@K@ %}v{% endset %}",
+    "for-target": "{% for @X@.@K@ in [1, 2] %}{% endfor %}",
+    "for-tuple-target": "{% for y, @X@.@K@ in [(1, 2)] %}{% endfor %}",
+    "with-target": "{% with @X@.@K@ = 1 %}{% endwith %}",
+    "macro-argument": "{% macro tm(@X@.@K@) %}{% endmacro %}{{ tm(1) }}",
+    "macro-default-argument": "{% macro tm(@X@.@K@=1) %}{% endmacro %}{{ tm() }}",
+    "call-block-argument": "{% macro tm() %}{{ caller(1) }}{% endmacro %}{% call(@X@.@K@) tm() %}{% endcall %}",
+    "import-as": "{% import 'alib' as @X@.@K@ %}",
+    "from-import-as": "{% from 'alib' import am as @X@.@K@ %}",
+    "trans-variable": "{% trans @X@.@K@=1 %}x{% endtrans %}",
+}
+TARGET_PLACEMENTS = {
+    "top": "BODY",
+    "in-if": "{% if true %}BODY{% endif %}",
+    "in-for": "{% for pi in [1, 2] %}BODY{% endfor %}",
+    "in-macro": "{% macro pm() %}BODY{% endmacro %}{{ pm() }}",
+    "in-block": "{% block pb %}BODY{% endblock %}",
+    "in-call-block": "{% macro pm() %}{{ caller() }}{% endmacro %}{% call pm() %}BODY{% endcall %}",
+    "in-with": "{% with pw = 1 %}BODY{% endwith %}",
+    "in-filter-block": "{% filter upper %}BODY{% endfilter %}",
+    "in-set-block": "{% set pout %}BODY{% endset %}",
+    "in-autoescape-block": "{% autoescape true %}BODY{% endautoescape %}",
+}
+# name: (wrapper with BODY, reference name, how it refers, type of the object referred to)
+TARGET_REFS = {
+    "ns": ("{% set ns = namespace() %}BODY", "ns", "namespace", "namespace"),
+    "ns_with_data": ("{% set ns = namespace(a=0, c=0, k=0) %}BODY", "ns", "namespace", "namespace"),
+    "d": ("BODY", "d", "context-name", "dict"),
+    "adict": ("BODY", "adict", "context-name", "dict"),
+    "l": ("BODY", "l", "context-name", "list"),
+    "s": ("BODY", "s", "context-name", "set"),
+    "q": ("BODY", "q", "context-name", "deque"),
+    "o": ("BODY", "o", "context-name", "object"),
+    "set_alias": ("{% set m = d %}BODY", "m", "set-alias", "dict"),
+    "set_alias_nested": ("{% set m = d.c %}BODY", "m", "set-alias-of-nested", "dict"),
+    "set_alias_item": ("{% set m = nest.t[1] %}BODY", "m", "set-alias-of-item", "dict"),
+    "set_alias_filter": ("{% set m = none|default(adict) %}BODY", "m", "set-alias-via-filter", "dict"),
+    "with_alias": ("{% with w = adict %}BODY{% endwith %}", "w", "with-alias", "dict"),
+    "loop_var": ("{% for row in [adict, d.c, nest.t[1]] %}BODY{% endfor %}", "row", "loop-variable", "dict"),
+    "loop_var_list": ("{% for lrow in ll %}BODY{% endfor %}", "lrow", "loop-variable", "list"),
+    "macro_param": ("{% macro w(mp) %}BODY{% endmacro %}{{ w(d) }}{{ w(adict) }}", "mp",
+                    "macro-parameter", "dict"),
+    "call_param": ("{% macro cw() %}{{ caller(d) }}{% endmacro %}{% call(cp) cw() %}BODY{% endcall %}",
+                   "cp", "call-block-parameter", "dict"),
+    "list_alias": ("{% set m = d.b %}BODY", "m", "set-alias-of-nested", "list"),
+}
+TARGET_ATTRS = ["k", "a", "c"]
+
+
+def target_source(form, ref, attr, placement):
+    wrap, name, _, _ = TARGET_REFS[ref]
+    stmt = TARGET_FORMS[form].replace("@X@", name).replace("@K@", attr)
+    return wrap.replace("BODY", TARGET_PLACEMENTS[placement].replace("BODY", stmt))
+
+
+_form_runs = {}
+
+
+def form_executes(form, is_async=False):
+    """Does the parser accept this form and does it execute (with a namespace
+    as the object assigned to)?  Decided by rendering it, not by a table."""
+    r = _form_runs.get(form)
+    if r is None:
+        _, _, outcome, _ = render(target_source(form, "ns_with_data", "k", "top"), is_async, False)
+        r = _form_runs[form] = outcome != "syntax"
+    return r
+
+
+def target_statements(quick, seed):
+    """-> [(key, source, tags)]"""
+    out = []
+    row = 0
+    for form in TARGET_FORMS:
+        live = form_executes(form)
+        for ref, (_, _, how, typ) in TARGET_REFS.items():
+            for pi, placement in enumerate(TARGET_PLACEMENTS):
+                if not live and placement != "top":
+                    continue
+                row += 1
+                if quick and placement != "top" and (row + seed) % 3:
+                    # quick: at the top level always, a rotating third of the other positions
+                    continue
+                attrs = [TARGET_ATTRS[(row + seed) % len(TARGET_ATTRS)]] if quick or not live \
+                    else TARGET_ATTRS
+                for attr in attrs:
+                    tags = ["target_cases:" + ("namespace" if typ == "namespace" else "container"),
+                            "target_form:" + form]
+                    if form.startswith("block-set"):
+                        tags.append("target_block_set_cases")
+                    out.append((f"assign-target:{form}:{typ}",
+                                target_source(form, ref, attr, placement), tags,
+                                [form, ref, how, placement, attr]))
+    return out
+
+
 def statement_case(ctx, case, count=True):
     source, is_async = case["source"], case["async"]
     autoescape = bool(case.get("autoescape", False))
@@ -572,6 +978,11 @@ def statement_case(ctx, case, count=True):
         if case.get("group"):
             ctx.count("assign_cases:" + case["group"])
             ctx.count("assign_outcome:" + case["group"] + ":" + outcome)
+        for tag in case.get("tags", ()):
+            ctx.count(tag)
+            if tag == "target_cases:namespace" and outcome == "ok":
+                # the statement form ran to the end with a namespace as its object
+                ctx.count("target_namespace_controls_ok")
         ctx.count("comparisons")
         if is_async:
             ctx.count("async_renders")
@@ -642,6 +1053,77 @@ def run(ctx):
         ctx.count("mutators_by_execution",
                   sum(1 for t in TYPES for m in dir(TYPES[t]) if is_mutator(t, m)))
         ctx.sample({"kind": "method", "source": "{% set m = q.appendleft %}{{ m(9) }}"})
+    # ---- methods taken from type objects (dict global, types as data / in containers / globals)
+    npaths = len(TYPE_PATHS)
+    tpaths = list(TYPE_PATHS)
+    tsampled = 0
+    for si, (yexpr, tyobj, ykind, tnames, rform) in enumerate(TYPE_SOURCES):
+        for tname in tnames:
+            names, own = type_method_names(tyobj, tname)
+            if ctx.shard == 0:
+                ctx.count("type_method_names", len(names))
+                ctx.count("type_own_method_names_out_of_scope", len(own))
+            for mname in names:
+                for ti in range(len(TARGETS[tname])):
+                    idx += 1
+                    if not ctx.mine(idx):
+                        continue
+                    for ai in range(len(ARGPOOL)):
+                        mut = type_mutates(si, tname, ti, mname, ai)
+                        if ti > 0 and not mut:
+                            continue
+                        r = idx // ctx.nshards + ai + ctx.seed
+                        if quick and not mut and r % 12:
+                            continue
+                        if quick and ti > 0 and r % 3:
+                            continue
+                        if quick:
+                            # one path per row, a second one on every other mutating row, rotating
+                            chosen = [tpaths[r % npaths]] + \
+                                ([tpaths[(r + 5) % npaths]] if mut and r % 2 else [])
+                        elif mut:
+                            chosen = tpaths
+                        else:
+                            chosen = [tpaths[r % npaths], tpaths[(r + 5) % npaths]]
+                        for pj, path in enumerate(chosen):
+                            combos = [(a, e) for a in (False, True) for e in (False, True)]
+                            if quick or not (mut and ti == 0):
+                                combos = [combos[(r + pj) % 4]]
+                            for is_async, ae in combos:
+                                case = {"kind": "typemethod", "tsource": si, "type": tname,
+                                        "target": ti, "method": mname, "args": ai, "path": path,
+                                        "async": is_async, "autoescape": ae}
+                                type_case(ctx, case)
+                                if mut and tsampled < 1 and ctx.shard == 1:
+                                    tsampled += 1
+                                    ctx.sample(dict(case, type_expression=yexpr))
+                idx += 1
+                # (decided only in the shard that owns the row: the ground truth costs 17 executions)
+                if ctx.mine(idx) and type_is_mutator(si, tname, mname):
+                    for fi, form in enumerate(("dot", "attr", "alias")):
+                        r = idx // ctx.nshards + ctx.seed + fi
+                        for is_async in (False, True):
+                            if quick and is_async != (r % 2 == 0):
+                                continue
+                            type_defined_case(ctx, {"kind": "typedefined", "tsource": si,
+                                                    "type": tname, "method": mname, "form": form,
+                                                    "async": is_async,
+                                                    "autoescape": (r + is_async) % 4 < 2})
+    # ---- attribute targets in every syntax that binds a name
+    for i, (key, s, tags, shape) in enumerate(target_statements(quick, ctx.seed)):
+        if not ctx.mine(i):
+            continue
+        r = i // ctx.nshards + ctx.seed
+        for is_async in (False, True):
+            for ae in (False, True):
+                if quick and (2 * is_async + ae) != r % 4:
+                    continue
+                statement_case(ctx, {"kind": "statement", "key": key, "source": s, "group": "target",
+                                     "tags": tags, "shape": shape, "async": is_async,
+                                     "autoescape": ae})
+    if ctx.shard == 0:
+        ctx.count("target_forms_total", len(TARGET_FORMS))
+        ctx.count("target_forms_executing", sum(1 for f in TARGET_FORMS if form_executes(f)))
     # ---- fixed statements
     for i, (key, s) in enumerate(STATEMENTS):
         if ctx.mine(i):
@@ -763,6 +1245,10 @@ def replay(ctx, case):
     k = case["kind"]
     if k == "method":
         method_case(ctx, case, count=False)
+    elif k == "typemethod":
+        type_case(ctx, case, count=False)
+    elif k == "typedefined":
+        type_defined_case(ctx, case, count=False)
     elif k == "defined":
         defined_case(ctx, case, count=False)
     elif k == "filter":
